@@ -64,7 +64,7 @@ BOUND = 9  # the value of every thread binding
 MAX_LISTED_EXPLAINED = 400  # per worker: explained (known-defect) cases written out; all are counted
 
 BOUNDS = {
-    "quick": "every history of length <=3 over the name groups {a-b,a_b} and {plain}, and of length <=2 over {x?,x__Q__}, "
+    "quick": "every history of length <=3 over the name groups {a-b,a_b} and {plain} (length <=4 over {plain} with plain defs only), and of length <=2 over {x?,x__Q__}, "
     "{print,print_}, {class,v',plain}; alphabet of a group of k names: 4k defs (plain/dynamic/redef/private) + k nested defs ((((fn [] (def n v0) (fn [] (def n v))))), at most one per history) + k "
     "alter-var-roots + k refers + in-ns + require (enabled operations only); each history under direct linking and under "
     "use-var-indirection, every read compiled with inline-functions on and off; all spellings of all group names read after "
@@ -785,7 +785,9 @@ def prefixes(group, plen, alphabet=None):
 
 # (group, max length, None | (from step index, def flags kept from that step on))
 PLAN = {
-    "quick": [("dash", 3, None), ("one", 3, None), ("qmark", 2, None), ("builtin", 2, None), ("single", 2, None)],
+    # ("one", 4, plain defs only): the shortest history after which a function compiled in one namespace with an alias
+    # spelling is called from the other namespace has four steps (def, in-ns, require, in-ns)
+    "quick": [("dash", 3, None), ("one", 3, None), ("one", 4, (0, ("plain",))), ("qmark", 2, None), ("builtin", 2, None), ("single", 2, None)],
     "thorough": [
         ("dash", 4, None),
         ("dash", 5, (0, ("plain",))),
